@@ -593,3 +593,271 @@ func VerifC04StatefulCopies(v *vrt.T) {
 	}
 	v.Reach("end")
 }
+
+// VerifC04NestedHistory: a nested arithmetic expression `("a" op1 "b") op2 "c"` compiled
+// once and evaluated on a scope S1 and then on S2 where the operands have other kinds
+// (int, float, duration), so that the kind of the INNER result changes between the two
+// evaluations: the second evaluation yields the typed reference value (or an error exactly
+// when the typed semantics has none), whatever the expression saw before.
+func VerifC04NestedHistory(v *vrt.T) {
+	ops := []ast.TokenType{ast.TokenPlus, ast.TokenMult, ast.TokenDiv}
+	op1, op2 := ops[v.Choose("op1", 3)], ops[v.Choose("op2", 3)]
+	kinds := []verifKind{vkInt, vkFloat, vkDuration}
+	sym := func(name string) verifVal {
+		// the subject is the kinds, not the arithmetic (Binary decides that on full ranges):
+		// small symbolic integers, one float per operand
+		switch kinds[v.Choose(name+".kind", 3)] {
+		case vkInt:
+			return verifVal{k: vkInt, i: int64(v.IntRange(name+".int", -3, 3))}
+		case vkFloat:
+			return verifVal{k: vkFloat, f: map[string]float64{"a": 1.5, "b": -2, "c": 0.5}[name]}
+		}
+		return verifVal{k: vkDuration, i: int64(v.IntRange(name+".dur", -3, 3))}
+	}
+	node := &ast.BinaryNode{Operator: op2,
+		Left:  &ast.BinaryNode{Operator: op1, Left: &ast.ReferenceNode{Reference: "a"}, Right: &ast.ReferenceNode{Reference: "b"}},
+		Right: &ast.ReferenceNode{Reference: "c"}}
+	expr, err := NewExpression(node)
+	v.Assume(err == nil)
+	steps := v.Bound("steps", 2)
+	for i := 0; i < steps; i++ {
+		a, b, c := sym("a"), sym("b"), sym("c")
+		s := NewScope()
+		s.Set("a", a.scopeValue())
+		s.Set("b", b.scopeValue())
+		s.Set("c", c.scopeValue())
+		res, err := expr.Eval(s)
+		inner, ok := verifRefBinary(op1, a, b)
+		var want verifVal
+		if ok {
+			want, ok = verifRefBinary(op2, inner, c)
+		}
+		v.Observe("err", err != nil)
+		v.Assert((err == nil) == ok, "error exactly when the typed semantics has no value")
+		if err == nil && ok {
+			v.Assert(verifSame(res, want), "result equals the typed reference value")
+		}
+	}
+	v.Reach("end")
+}
+
+// ---------- built-in functions against reference values ----------
+
+func verifDigits(s string) (val int64, ok bool) {
+	if len(s) == 0 {
+		return 0, false
+	}
+	for i := 0; i < len(s); i++ {
+		if s[i] < '0' || s[i] > '9' {
+			return 0, false
+		}
+		val = val*10 + int64(s[i]-'0')
+	}
+	return val, true
+}
+
+// verifRefFunction: the documented result of the call (TICKscript lambda function
+// reference: type conversion functions are decimal, bool() accepts what strconv.ParseBool
+// accepts and the numbers 0 and 1; string functions are byte-wise like Go's strings
+// package).
+func verifRefFunction(name string, a []verifVal) (verifVal, bool) {
+	switch name {
+	case "int":
+		switch a[0].k {
+		case vkInt:
+			return a[0], true
+		case vkBool:
+			if a[0].b {
+				return verifVal{k: vkInt, i: 1}, true
+			}
+			return verifVal{k: vkInt, i: 0}, true
+		case vkString:
+			s := a[0].s
+			neg := false
+			if len(s) > 0 && (s[0] == '-' || s[0] == '+') {
+				neg = s[0] == '-'
+				s = s[1:]
+			}
+			n, ok := verifDigits(s)
+			if !ok {
+				return verifVal{}, false
+			}
+			if neg {
+				n = -n
+			}
+			return verifVal{k: vkInt, i: n}, true
+		}
+	case "float":
+		switch a[0].k {
+		case vkInt:
+			return verifVal{k: vkFloat, f: float64(a[0].i)}, true
+		case vkBool:
+			if a[0].b {
+				return verifVal{k: vkFloat, f: 1}, true
+			}
+			return verifVal{k: vkFloat, f: 0}, true
+		}
+	case "bool":
+		switch a[0].k {
+		case vkBool:
+			return a[0], true
+		case vkInt:
+			if a[0].i == 0 || a[0].i == 1 {
+				return verifVal{k: vkBool, b: a[0].i == 1}, true
+			}
+			return verifVal{}, false
+		case vkString:
+			switch a[0].s {
+			case "1", "t", "T":
+				return verifVal{k: vkBool, b: true}, true
+			case "0", "f", "F":
+				return verifVal{k: vkBool, b: false}, true
+			}
+			return verifVal{}, false // longer spellings (true, FALSE, ...) need more than 2 bytes
+		}
+	case "string":
+		switch a[0].k {
+		case vkString:
+			return a[0], true
+		case vkBool:
+			if a[0].b {
+				return verifVal{k: vkString, s: "true"}, true
+			}
+			return verifVal{k: vkString, s: "false"}, true
+		}
+	case "strLength":
+		return verifVal{k: vkInt, i: int64(len(a[0].s))}, true
+	case "strHasPrefix":
+		s, p := a[0].s, a[1].s
+		return verifVal{k: vkBool, b: len(s) >= len(p) && s[:len(p)] == p}, true
+	case "strHasSuffix":
+		s, p := a[0].s, a[1].s
+		return verifVal{k: vkBool, b: len(s) >= len(p) && s[len(s)-len(p):] == p}, true
+	case "strContains", "strIndex":
+		s, p := a[0].s, a[1].s
+		idx := int64(-1)
+		for i := 0; i+len(p) <= len(s); i++ {
+			if s[i:i+len(p)] == p {
+				idx = int64(i)
+				break
+			}
+		}
+		if name == "strContains" {
+			return verifVal{k: vkBool, b: idx >= 0}, true
+		}
+		return verifVal{k: vkInt, i: idx}, true
+	case "abs":
+		f := a[0].f
+		if f < 0 {
+			f = -f
+		}
+		if f == 0 {
+			f = 0 // -0 -> +0
+		}
+		return verifVal{k: vkFloat, f: f}, true
+	case "if":
+		if a[0].b {
+			return a[1], true
+		}
+		return a[2], true
+	}
+	return verifVal{}, false
+}
+
+var verifC04Funcs = []struct {
+	name string
+	args string // i int64, f float64, s string of 0..2 bytes, S string of 0..3 bytes, b bool
+}{
+	{"int", "S"}, {"int", "b"}, {"int", "i"}, {"float", "i"}, {"float", "b"},
+	{"bool", "s"}, {"bool", "i"}, {"bool", "b"}, {"string", "b"}, {"string", "s"},
+	{"strLength", "s"}, {"strHasPrefix", "ss"}, {"strHasSuffix", "ss"}, {"strContains", "ss"}, {"strIndex", "ss"},
+	{"abs", "f"}, {"if", "bii"}, {"if", "bss"},
+}
+
+// VerifC04Functions: built-in functions on arbitrary field values compute their documented
+// result (value and kind), or report an error exactly when the documented function has no
+// value (int('x'), bool(2), ...).
+func VerifC04Functions(v *vrt.T) {
+	fc := verifC04Funcs[v.Choose("function", len(verifC04Funcs))]
+	names := []string{"a", "b", "c"}
+	scope := NewScope()
+	var args []ast.Node
+	var vals []verifVal
+	for i := 0; i < len(fc.args); i++ {
+		var x verifVal
+		switch fc.args[i] {
+		case 'i':
+			x = verifVal{k: vkInt, i: v.Int64("int")}
+		case 'f':
+			x = verifVal{k: vkFloat, f: v.Float64("float")}
+		case 's':
+			x = verifVal{k: vkString, s: v.String("string", v.Choose("len", 3))}
+		case 'S':
+			x = verifVal{k: vkString, s: v.String("string", v.Choose("len", 4))}
+		case 'b':
+			x = verifVal{k: vkBool, b: v.Bool("bool")}
+		}
+		vals = append(vals, x)
+		scope.Set(names[i], x.scopeValue())
+		args = append(args, &ast.ReferenceNode{Reference: names[i]})
+	}
+	expr, err := NewExpression(&ast.FunctionNode{Type: ast.GlobalFunc, Func: fc.name, Args: args})
+	v.Assert(err == nil, "the call compiles")
+	if err != nil {
+		return
+	}
+	res, err := expr.Eval(scope)
+	want, ok := verifRefFunction(fc.name, vals)
+	v.Observe("err", err != nil)
+	v.Assert((err == nil) == ok, "error exactly when the documented function has no value")
+	if err == nil && ok {
+		v.Assert(verifSame(res, want), "result equals the documented value")
+	}
+	v.Reach("end")
+}
+
+// VerifC04UnaryNestedHistory: `(u "a") op "b"` with a unary operator under a binary one
+// (!"a" AND "b", -"a" + "b", -"a" * "b", !"a" == "b", -"a" < "b"), compiled once and
+// evaluated on `steps` consecutive scopes with kinds chosen per operand and step (also
+// kinds the operators do not accept): every evaluation yields the typed reference value, or
+// an error exactly when there is none - a faulty point must not poison later valid ones.
+func VerifC04UnaryNestedHistory(v *vrt.T) {
+	shapes := []struct{ u, op ast.TokenType }{
+		{ast.TokenNot, ast.TokenAnd}, {ast.TokenNot, ast.TokenEqual},
+		{ast.TokenMinus, ast.TokenPlus}, {ast.TokenMinus, ast.TokenMult}, {ast.TokenMinus, ast.TokenLess},
+	}
+	sh := shapes[v.Choose("shape", len(shapes))]
+	kinds := []verifKind{vkBool, vkInt, vkFloat, vkString}
+	sym := func(name string) verifVal {
+		switch kinds[v.Choose(name+".kind", len(kinds))] {
+		case vkBool:
+			return verifVal{k: vkBool, b: v.Bool(name + ".bool")}
+		case vkInt:
+			return verifVal{k: vkInt, i: int64(v.IntRange(name+".int", -3, 3))}
+		case vkFloat:
+			return verifVal{k: vkFloat, f: map[string]float64{"a": 1.5, "b": -2}[name]}
+		}
+		return verifVal{k: vkString, s: "s"}
+	}
+	node := &ast.BinaryNode{Operator: sh.op,
+		Left:  &ast.UnaryNode{Operator: sh.u, Node: &ast.ReferenceNode{Reference: "a"}},
+		Right: &ast.ReferenceNode{Reference: "b"}}
+	expr, err := NewExpression(node)
+	v.Assume(err == nil)
+	steps := v.Bound("steps", 2)
+	for i := 0; i < steps; i++ {
+		a, b := sym("a"), sym("b")
+		res, err := expr.Eval(verifScope(a, b))
+		inner, ok := verifRefUnary(sh.u, a)
+		var want verifVal
+		if ok {
+			want, ok = verifRefBinary(sh.op, inner, b)
+		}
+		v.Observe("err", err != nil)
+		v.Assert((err == nil) == ok, "error exactly when the typed semantics has no value")
+		if err == nil && ok {
+			v.Assert(verifSame(res, want), "result equals the typed reference value")
+		}
+	}
+	v.Reach("end")
+}
